@@ -2,6 +2,9 @@
 C09 — execution history is a gap-free, ordered, faithful log.
 -/
 import AslModel.History
+import AslModel.Lite
+import Proofs.Lemmas.Log
+import Proofs.Lemmas.FuelMono
 namespace Asl.C09
 open Asl
 
@@ -60,6 +63,113 @@ theorem terminalLast_spec (h : List HEvent) (ht : terminalLast h = true) (pre po
 /-- reverseOrder is exactly the reverse list -/
 theorem reverse_is_reverse (h : List HEvent) : h.reverse.reverse = h := List.reverse_reverse h
 
+
+/-! ### the reference semantics predicts the state events of the history
+
+`Asl.run` records (`Outcome.log`, oldest first) an `entered` event where the engine writes
+`…StateEntered` and an `exited` event where it writes `…StateExited` (see `St.log`). -/
+
+/-- whatever a run does, the log only grows: the state after running from any state is the state
+before with more events in front (the log is kept most recent first) -/
+theorem log_only_grows (env : Env) (fuel : Nat) (states : Json) (name : Str) (data ctx : Json) (r : Nat) (st : St) :
+    ∃ evs, (runFrom env fuel states name data ctx r st).2.log = evs ++ st.log :=
+  let ⟨evs, h, _⟩ := (growsAll env fuel).runFrom states name data ctx r st
+  ⟨evs, h⟩
+
+/-- (i) for every machine, input, environment and fuel: the names of the `entered` events of the log
+are exactly the `trace` -/
+theorem entered_matches_trace (env : Env) (fuel : Nat) (asl input ctx : Json) :
+    enteredNames (run env fuel asl input ctx).log = (run env fuel asl input ctx).trace := by
+  unfold run
+  split
+  · rename_i start states h1 h2
+    obtain ⟨evs, hl, ht⟩ := (growsAll env fuel).runFrom states start input ctx 0 {}
+    generalize runFrom env fuel states start input ctx 0 {} = p at hl ht
+    obtain ⟨r, st⟩ := p
+    have hl' : st.log = evs := by simpa using hl
+    have ht' : st.trace = enteredNames evs := by simpa using ht
+    cases r <;> simp only [enteredNames_reverse, hl', ht']
+  · rfl
+
+/-- (ii) the log (like the whole outcome) does not depend on the fuel -/
+theorem log_fuel_independent (env : Env) (n m : Nat) (h : n ≤ m) (asl input ctx : Json)
+    (hs : (run env n asl input ctx).status ≠ S "FUEL") :
+    (run env m asl input ctx).log = (run env n asl input ctx).log ∧
+    (run env m asl input ctx).requests = (run env n asl input ctx).requests ∧
+    (run env m asl input ctx).fanFail = (run env n asl input ctx).fanFail := by
+  rw [Asl.run_fuel_independent env n m h asl input ctx hs]
+  exact ⟨rfl, rfl, rfl⟩
+
+/-- (iii) a successful `leave` — End reached with an output within the limit — appends exactly one
+`exited` event carrying the output -/
+theorem leave_logs_exit (env : Env) (fuel : Nat) (states : Json) (name : Str) (state raw out ctx : Json)
+    (retries : Nat) (st : St) (hE : isTrue (fld state "End") = true) (hL : (render out).length ≤ env.maxData) :
+    (leave env (fuel + 1) states name state raw out ctx retries st).2.log = .exited name out :: st.log := by
+  have : ¬ (render out).length > env.maxData := by omega
+  simp [leave, hE, this, St.exit]
+
+/-- … and an accepted transition appends that one `exited` event *before* anything the successor (and
+everything after it) logs -/
+theorem leave_logs_exit_before_successor (env : Env) (fuel : Nat) (states : Json) (name next : Str)
+    (state raw out ctx : Json) (retries : Nat) (st : St)
+    (hE : isTrue (fld state "End") = false) (hN : fldStr state "Next" = some next)
+    (hL : (render out).length ≤ env.maxData) :
+    ∃ later, (leave env (fuel + 1) states name state raw out ctx retries st).2.log =
+      later ++ .exited name out :: st.log := by
+  have : ¬ (render out).length > env.maxData := by omega
+  obtain ⟨evs, h⟩ := log_only_grows env fuel states next out ctx 0 (st.exit name out)
+  exact ⟨evs, by simpa [leave, hE, hN, this, St.exit] using h⟩
+
+/-- a refused transition / an over-limit terminal output logs no exit by itself: the state is handed to
+its error handler with the log as it was -/
+theorem refused_leave_logs_nothing (env : Env) (fuel : Nat) (states : Json) (name : Str) (state raw out ctx : Json)
+    (retries : Nat) (st : St) (hL : (render out).length > env.maxData)
+    (hN : isTrue (fld state "End") = true ∨ (fldStr state "Next").isSome) :
+    leave env (fuel + 1) states name state raw out ctx retries st =
+      handleErr env fuel states name state raw ctx retries (S "States.DataLimitExceeded") (S "m") st := by
+  by_cases hE : isTrue (fld state "End") = true
+  · simp [leave, hE, hL]
+  · have hE' : isTrue (fld state "End") = false := by simpa using hE
+    rcases hN with h | h
+    · exact absurd h hE
+    · obtain ⟨nx, hn⟩ := Option.isSome_iff_exists.mp h
+      simp [leave, hE', hn, hL]
+
+/-- (iv) a state whose error is neither retried nor caught logs no exit: the failure leaves the log
+(and the rest of the state) exactly as it was -/
+theorem failed_state_logs_no_exit (env : Env) (fuel : Nat) (states : Json) (name : Str) (state data ctx : Json)
+    (retries : Nat) (e msg : Str) (st : St)
+    (h : decideError ((listOf (fld state "Retry")).map retrierOf) ((listOf (fld state "Catch")).map catcherOf)
+      e retries = .uncaught) :
+    (handleErr env (fuel + 1) states name state data ctx retries e msg st).2 = st := by
+  simp [handleErr, h]
+
+/-- a caught state is exited (the engine files the Catcher's transition under the caught state's name)
+with the data handed to the Catcher's `Next`, before anything the successor logs -/
+theorem caught_state_logs_exit_with_handed_data (env : Env) (fuel : Nat) (states : Json) (name next : Str)
+    (state data data' ctx : Json) (retries : Nat) (e msg : Str) (st : St) (c : Catcher)
+    (h : decideError ((listOf (fld state "Retry")).map retrierOf) ((listOf (fld state "Catch")).map catcherOf)
+      e retries = .caught c)
+    (hn : c.next = some next)
+    (hp : applyResultPath data (errorOutput e (causeOf msg)) (match c.resultPath with | none => some ['$'] | some p => p) = .ok data')
+    (hl : (render data').length ≤ env.maxData) :
+    ∃ later, (handleErr env (fuel + 1) states name state data ctx retries e msg st).2.log =
+      later ++ .exited name data' :: st.log := by
+  have : ¬ env.maxData < (render data').length := by omega
+  obtain ⟨evs, hg⟩ := log_only_grows env fuel states next data' ctx 0 (st.exit name data')
+  refine ⟨evs, ?_⟩
+  cases hrp : c.resultPath with
+  | none => simp only [hrp] at hp; simpa [handleErr, h, hn, hrp, hp, this, St.exit] using hg
+  | some q => simp only [hrp] at hp; simpa [handleErr, h, hn, hrp, hp, this, St.exit] using hg
+
+/-- entering a state for the first time logs `entered` with its raw input; a retry re-entry logs nothing -/
+theorem enter_logs_raw_input (st : St) (name : Str) (data : Json) :
+    (st.enter name data 0).log = .entered name data :: st.log ∧
+    ∀ k, (st.enter name data (k + 1)).log = st.log := by
+  constructor
+  · simp [St.enter]
+  · intro k; simp [St.enter]
+
 /-! non-vacuity -/
 private def ev (i : Nat) (t : String) (n : String) : HEvent := { id := i, prev := i - 1, ts := i, type := t.toList, name := n.toList }
 example : WFHistory [ev 1 "ExecutionStarted" "", ev 2 "PassStateEntered" "P", ev 3 "PassStateExited" "P",
@@ -69,5 +179,46 @@ example : WFHistory [ev 1 "ExecutionStarted" "", ev 2 "PassStateExited" "P"] = f
 example : WFHistory [ev 1 "ExecutionStarted" "", ev 2 "PassStateEntered" "P", ev 3 "PassStateExited" "P",
     ev 4 "PassStateEntered" "Q", ev 5 "ExecutionSucceeded" ""] = false := by decide
 example : WFHistory [ev 1 "ExecutionStarted" "", ev 3 "PassStateEntered" "P"] = false := by decide
+
+/-! the log, concretely: Task `T` (retried once after an error, then caught) → `C`; limit 262144 -/
+private def k (s : String) : Str := s.toList
+private def envL : Env :=
+  { tmpl := Lite.tmpl, choose := Lite.choose
+    task := fun _ _ n => if n = 0 then .obj [(k "errorType", .str (k "E")), (k "errorMessage", .str (k "m"))]
+                          else .obj [(k "errorType", .str (k "F"))] }
+private def tSt : Json := .obj [
+  (k "Type", .str (k "Task")), (k "Resource", .str (k "arn:aws:rpcmessage:local::function:f")), (k "Next", .str (k "N")),
+  (k "Retry", .arr [.obj [(k "ErrorEquals", .arr [.str (k "E")]), (k "MaxAttempts", .num 1)]]),
+  (k "Catch", .arr [.obj [(k "ErrorEquals", .arr [.str (k "States.ALL")]), (k "ResultPath", .null), (k "Next", .str (k "C"))]])]
+private def aslL : Json := .obj [(k "StartAt", .str (k "T")), (k "States", .obj [
+  (k "T", tSt), (k "N", .obj [(k "Type", .str (k "Succeed"))]),
+  (k "C", .obj [(k "Type", .str (k "Pass")), (k "Result", .num 7), (k "ResultPath", .str (k "$.r")), (k "End", .bool true)])])]
+private def inL : Json := .obj [(k "a", .num 1)]
+/-- entered T (once, although it ran twice), T exited through its Catcher with the raw input, C entered
+with it and exited with its output; two task requests -/
+example : (run envL 20 aslL inL (.obj [])).log =
+    [.entered (k "T") inL, .exited (k "T") inL, .entered (k "C") inL,
+     .exited (k "C") (.obj [(k "a", .num 1), (k "r", .num 7)])] ∧
+    (run envL 20 aslL inL (.obj [])).requests = 2 ∧ (run envL 20 aslL inL (.obj [])).fanFail = false ∧
+    (run envL 20 aslL inL (.obj [])).trace = [k "T", k "C"] := by decide +kernel
+/-- hypothesis of `log_fuel_independent` -/
+example : (run envL 20 aslL inL (.obj [])).status ≠ S "FUEL" := by decide +kernel
+/-- a Fail state is entered and never exited; the failed fan-out around it sets `fanFail` -/
+private def aslF : Json := .obj [(k "StartAt", .str (k "P")), (k "States", .obj [
+  (k "P", .obj [(k "Type", .str (k "Parallel")), (k "End", .bool true), (k "Branches", .arr [
+    .obj [(k "StartAt", .str (k "F")), (k "States", .obj [(k "F", .obj [(k "Type", .str (k "Fail")), (k "Error", .str (k "X"))])])]])])])]
+example : (run envL 20 aslF inL (.obj [])).log = [.entered (k "P") inL, .entered (k "F") inL] ∧
+    (run envL 20 aslF inL (.obj [])).fanFail = true ∧ (run envL 20 aslF inL (.obj [])).requests = 0 := by
+  decide +kernel
+/-- hypotheses of `leave_logs_exit` / `leave_logs_exit_before_successor` / `failed_state_logs_no_exit` /
+`caught_state_logs_exit_with_handed_data` on `tSt` and a terminal state -/
+example : isTrue (fld (.obj [(k "Type", .str (k "Pass")), (k "End", .bool true)]) "End") = true ∧
+    (render inL).length ≤ envL.maxData ∧
+    isTrue (fld tSt "End") = false ∧ fldStr tSt "Next" = some (k "N") := by
+  refine ⟨by rfl, by decide, by rfl, by rfl⟩
+example : decideError ((listOf (fld tSt "Retry")).map retrierOf) ((listOf (fld tSt "Catch")).map catcherOf)
+    (S "States.Runtime") 0 = .uncaught := by rfl
+example : ∃ c, decideError ((listOf (fld tSt "Retry")).map retrierOf) ((listOf (fld tSt "Catch")).map catcherOf)
+    (k "F") 1 = .caught c ∧ c.next = some (k "C") ∧ c.resultPath = some none := ⟨_, rfl, rfl, rfl⟩
 
 end Asl.C09
